@@ -20,7 +20,8 @@ RULE = ("cases from rng(seed, 13, 0, i): graphs of SE(2)/SE(3) poses and R^2/R^3
         "(identity offset), SE(3)->R^3 landmark edges referencing registered PARAMS_SE3OFFSET (rotated offsets, w<0), PARAMS_SE2OFFSET entries; values from hostile classes "
         "incl. 1e-300..1e300, subnormals, negative / 2^62 / 2^64 ids, w<0 quaternions, dense information; 1..5 export/import cycles (sometimes with in-place edits of the loaded graph between cycles; sometimes an edge listed twice; the first written file is also read with registered edge types that recognise built-in lines (EdgeOdometry itself / a subclass, listed once or twice): still one edge per line). pinned: files of exactly 999/1000/1001/1024/2000/4096/8192 lines. every 6th case checks that inexpressible "
         "content (R^n odometry, R^n->R^n landmark edges, SE(2) landmark edge with a non-identity - also tiny - offset, SE(3) landmark edge whose offset id is None (also while a different offset is registered under id 0) / unregistered) is refused with an error at export or import instead of silently becoming a different graph. distinct = spec fingerprint; non-trivial = >= 2 edges and "
-        ">= 1 non-integer value.")
+        ">= 1 non-integer value."
+        " later additions: parameter id 0, parameter table compared with the built values, exports under hostile numpy print options, re-import after editing an earlier import.")
 REQ = ["class:numpy_print_options_set_by_the_application", "class:reimport_after_editing_an_earlier_import", "class:reimport_with_registered_types_that_parse_builtin_lines", "class:file_of_exactly_1000_lines", "refusal_variant:lm_se3_offset_id_none_param0", "eval:roundtrip-structure", "eval:roundtrip-vertex-poses", "eval:roundtrip-edge-measurements", "eval:roundtrip-information", "eval:roundtrip-offsets", "eval:roundtrip-chi2",
        "eval:file-tokens-exact", "eval:element-level-roundtrip", "eval:inexpressible-content-refused", "class:family:2d", "class:family:3d", "class:family:both", "class:extreme_values", "class:meas_quat_wneg",
        "class:offset_rotated", "class:cycles>1", "class:huge_ids", "class:identical_parallel_edges", "class:edited_in_place_between_cycles"]
